@@ -592,12 +592,12 @@ pub fn run(ctx: &mut Ctx) {
     // --- random
     ctx.layer("random");
     let n = t.pick(20_000u32, 1_000_000u32);
-    ctx.run_prop(&SUB_CONSTRUCT, raw_word(6, 120).prop_map(|w| Words(vec![w], 0)), n);
-    ctx.run_prop(&SUB_BINARY, (raw_word(4, 60), raw_word(4, 60)).prop_map(|(a, b)| Words(vec![a, b], 0)), n);
+    ctx.run_prop(&SUB_CONSTRUCT, || raw_word(6, 120).prop_map(|w| Words(vec![w], 0)), n);
+    ctx.run_prop(&SUB_BINARY, || (raw_word(4, 60), raw_word(4, 60)).prop_map(|(a, b)| Words(vec![a, b], 0)), n);
     // pairs with planted cancellation: b starts with the inverse of a suffix of a
     ctx.run_prop(
         &SUB_BINARY,
-        (raw_word(3, 40), any::<u32>(), raw_word(3, 20)).prop_map(|(a, cut, tail)| {
+        || (raw_word(3, 40), any::<u32>(), raw_word(3, 20)).prop_map(|(a, cut, tail)| {
             let ma = m_reduce(&a);
             let k = pick_index(cut, ma.len() + 1);
             let mut b = m_inv(&ma[ma.len() - k..]);
@@ -606,10 +606,11 @@ pub fn run(ctx: &mut Ctx) {
         }),
         n,
     );
-    ctx.run_prop(&SUB_TRIPLE, (raw_word(3, 30), raw_word(3, 30), raw_word(3, 30)).prop_map(|(a, b, c)| Words(vec![a, b, c], 0)), n);
-    ctx.run_prop(&SUB_UNARY, (raw_word(3, 40), -30i64..=30).prop_map(|(a, k)| Words(vec![a], k)), n);
-    ctx.run_prop(&SUB_RELATOR, raw_word(3, 14).prop_map(|a| Words(vec![a], 0)), n / 4);
-    ctx.run_prop(&SUB_HISTORY, prop::collection::vec(op_strategy(), 0..t.pick(12, 24)).prop_map(History), t.pick(60_000, 3_000_000));
+    ctx.run_prop(&SUB_TRIPLE, || (raw_word(3, 30), raw_word(3, 30), raw_word(3, 30)).prop_map(|(a, b, c)| Words(vec![a, b, c], 0)), n);
+    ctx.run_prop(&SUB_UNARY, || (raw_word(3, 40), -30i64..=30).prop_map(|(a, k)| Words(vec![a], k)), n);
+    ctx.run_prop(&SUB_RELATOR, || raw_word(3, 14).prop_map(|a| Words(vec![a], 0)), n / 4);
+    let hl = t.pick(12, 24);
+    ctx.run_prop(&SUB_HISTORY, || prop::collection::vec(op_strategy(), 0..hl).prop_map(History), t.pick(100_000, 3_000_000));
 }
 
 pub fn replay(ctx: &mut Ctx, sub: &str, case: &Value) -> Option<Result<(), String>> {
